@@ -26,8 +26,8 @@ def _constants_model(ascii_only: bool = False) -> str:
     try:
         c30.INT_VALUES = [0, 1, 7, 2 ** 31, 2 ** 63 - 1]  # beyond 64 bits the Java target reports an error
         if ascii_only:
-            c30.STR_VALUES = [v for v in c30.STR_VALUES if v.isascii()]
-            c30.ENUM_VALUES = [v for v in c30.ENUM_VALUES if v.isascii()]
+            c30.STR_VALUES = [v if v.isascii() else f"ascii {k}" for k, v in enumerate(c30.STR_VALUES)]
+            c30.ENUM_VALUES = [v if v.isascii() else f"ascii {k}" for k, v in enumerate(c30.ENUM_VALUES)]
         return c30.build_model()[0]
     finally:
         c30.INT_VALUES, c30.STR_VALUES, c30.ENUM_VALUES = saved
